@@ -818,8 +818,16 @@ class Evaluator:
                         env2[p] = Other(g.defaults[p].value, g.defaults[p].value is None)
                     else:
                         env2[p] = Other()
+                sub.watch, sub.in_loop = set(self.watch), self.in_loop
                 sub.run(env2)
                 self.problems.extend(sub.problems)
+                # a callee that stores into a list it was handed (factors[k] = ...) changes the caller's list
+                back = {p_: a_.id for p_, a_ in b.params.items() if isinstance(a_, ast.Name)}
+                for p_, nm_ in back.items():
+                    if isinstance(env.get(nm_), ListV) and isinstance(env2.get(p_), ListV) and any(st_[1] == p_ for st_ in sub.stores):
+                        env[nm_] = env2[p_]
+                for node_, lname_, key_, d_ in sub.stores:
+                    self.stores.append((node_, back.get(lname_, lname_), key_, d_))
                 funs = [v for _, v, _ in sub.raw_returns if isinstance(v, tuple) and v[0] == "func"]
                 if funs and len(funs) == len(sub.raw_returns) and all(v[1] is funs[0][1] for v in funs):
                     return funs[0]  # a selector that returns one known function on every path taken
